@@ -37,6 +37,7 @@ type Solver struct {
 	timeout int
 	Log     io.Writer
 	dead    bool
+	Macro   bool // emit define-fun instead of declare-const + equation (used for stand-alone scripts)
 }
 
 // NewSolver starts a solver for the given store. timeoutMs is the per-query soft timeout.
@@ -181,7 +182,14 @@ func (s *Solver) define(t *Term) {
 				fmt.Fprintf(&s.buf, ") %s)\n", sortStr(x.W))
 			}
 		}
-		fmt.Fprintf(&s.buf, "(define-fun t%d () %s ", x.ID, sortStr(x.W))
+		// A defined name per DAG node. define-fun is a macro in z3 (the body is
+		// re-expanded at every use, turning the DAG into a tree), so nodes are
+		// introduced as constants with a defining equation instead.
+		if s.Macro {
+			fmt.Fprintf(&s.buf, "(define-fun t%d () %s ", x.ID, sortStr(x.W))
+		} else {
+			fmt.Fprintf(&s.buf, "(declare-const t%d %s)\n(assert (= t%d ", x.ID, sortStr(x.W), x.ID)
+		}
 		switch x.Op {
 		case OpExtract:
 			fmt.Fprintf(&s.buf, "((_ extract %d %d) %s)", x.Hi, x.Lo, ref(x.Args[0]))
@@ -202,7 +210,11 @@ func (s *Solver) define(t *Term) {
 			}
 			s.buf.WriteString(")")
 		}
-		s.buf.WriteString(")\n")
+		if s.Macro {
+			s.buf.WriteString(")\n")
+		} else {
+			s.buf.WriteString("))\n")
+		}
 	}
 }
 
@@ -214,6 +226,15 @@ func (s *Solver) readLine() string {
 		return "(error \"solver died\")"
 	}
 	return strings.TrimSpace(line)
+}
+
+// Assert adds t permanently to the solver's assertion set.
+func (s *Solver) Assert(t *Term) {
+	if s.dead || t.IsTrue() {
+		return
+	}
+	s.define(t)
+	s.buf.WriteString("(assert " + ref(t) + ")\n")
 }
 
 // Check decides satisfiability of the conjunction of the given Bool terms.
@@ -240,9 +261,10 @@ func (s *Solver) Check(assumptions ...*Term) Result {
 		}
 	}
 	if len(lits) == 0 {
-		return Sat
+		s.buf.WriteString("(check-sat)\n")
+	} else {
+		s.buf.WriteString("(check-sat-assuming (" + strings.Join(lits, " ") + "))\n")
 	}
-	s.buf.WriteString("(check-sat-assuming (" + strings.Join(lits, " ") + "))\n")
 	t0 := time.Now()
 	s.send(s.buf.String())
 	s.buf.Reset()
